@@ -583,8 +583,12 @@ def explore_schedules_learned(parent_fn, capacity=None, seed=1, max_states=20000
     errors = {}
     stuck = []
     maxd = 0
+    it = 0
     while queue:
-        G = queue.popleft()
+        # breadth-first (short schedules first), with periodic depth-first dives so that final states - and with them a
+        # dependence of the outcome on the schedule - are met early instead of after the whole graph
+        it += 1
+        G = queue.pop() if it % 400 < 100 else queue.popleft()
         names = [n for n in sorted(G.locals, key=lambda n: (n != "parent", n)) if _sym_enabled(G, n, capacity)]
         if not names:
             if all(L[3] for L in G.locals.values()):
